@@ -94,6 +94,9 @@ type LogCase struct {
 	Stages    []LStage  `json:"stages,omitempty"`
 	Recs      []LRec    `json:"recs"`
 	Limit     int       `json:"limit"`
+	// Share: the storage hands out one attribute map for all records with the same attributes (the
+	// Docker backend shares one resource map per container)
+	Share bool `json:"share,omitempty"`
 }
 
 var strOpText = map[string]string{"eq": "=", "ne": "!=", "re": "=~", "nre": "!~"}
@@ -441,6 +444,10 @@ type mockQuerier struct {
 	capsLabel, capsLine []string
 	recs                []LRec
 	calls               int
+	// honourBounds: return only the records inside the [start, end] the engine asks for (a storage is
+	// entitled to do that; the Docker backend passes the bounds on as since/until)
+	honourBounds bool
+	shareAttrs   bool
 }
 
 func (m *mockQuerier) Capabilities() (c logqlengine.QuerierCapabilities) {
@@ -466,8 +473,12 @@ func mockRecLabels(r LRec) map[string]string {
 
 func (m *mockQuerier) SelectLogs(ctx context.Context, start, end otelstorage.Timestamp, p logqlengine.SelectLogsParams) (iterators.Iterator[logstorage.Record], error) {
 	m.calls++
+	shared := map[string]pcommon.Map{}
 	var out []logstorage.Record
 	for _, r := range m.recs {
+		if m.honourBounds && (r.TS < int64(start) || r.TS > int64(end)) {
+			continue
+		}
 		ls := mockRecLabels(r)
 		ok := true
 		for _, lm := range p.Labels {
@@ -498,9 +509,16 @@ func (m *mockQuerier) SelectLogs(ctx context.Context, start, end otelstorage.Tim
 		if !ok {
 			continue
 		}
-		attrs := pcommon.NewMap()
-		for _, kv := range r.Attrs {
-			attrs.PutStr(kv[0], kv[1])
+		var attrs pcommon.Map
+		key := fmt.Sprint(r.Attrs)
+		if prev, ok := shared[key]; ok && m.shareAttrs {
+			attrs = prev
+		} else {
+			attrs = pcommon.NewMap()
+			for _, kv := range r.Attrs {
+				attrs.PutStr(kv[0], kv[1])
+			}
+			shared[key] = attrs
 		}
 		out = append(out, logstorage.Record{Timestamp: otelstorage.Timestamp(r.TS), Body: r.Body, Attrs: otelstorage.Attrs(attrs)})
 	}
@@ -512,7 +530,7 @@ func normLabelValue(v string) string { return v }
 
 // logImpl evaluates the case on the real engine and canonicalises the result.
 func logImpl(t LogCase, normNested bool) Sexp {
-	mq := &mockQuerier{capsLabel: t.CapsLabel, capsLine: t.CapsLine, recs: t.Recs}
+	mq := &mockQuerier{capsLabel: t.CapsLabel, capsLine: t.CapsLine, recs: t.Recs, shareAttrs: t.Share}
 	data, err := evalQuery(mq, logQueryText(t.Sel, t.Stages), 1, 1<<62, 0, t.Limit)
 	if err != nil {
 		return L(A("err"), A(errClassOf(err)))
